@@ -50,9 +50,19 @@ def _execute(case):
           "el2": {"jds": [], "rows": [], "parallel": True},
           "held_el_before": [], "held_el_after": [], "held_g_before": [], "held_g_after": [],
           "el2_before_edit": [], "el2_after_edit": []}
+    if case.get("pre_abort") is not None:
+        # crash point: a conversion of this very edge-list object was abandoned part-way; the caller converts it again
+        from ..crash import abort_at
+        tr["pre_abort_outcome"] = abort_at(lambda: gcmpy.EdgeListToNetwork.convert(el), 1 + int(case["pre_abort"] * (12 + 3 * len(case["rows"]))))
     try:
         net = gcmpy.EdgeListToNetwork.convert(el)
         tr["G"] = _proj(net.G)
+        if case.get("reuse_jds_list") and len(el.joint_degrees) > 0:
+            # the caller goes on using ITS list of joint degrees for something else (same length, edited in place):
+            # the network was built from what the list held at conversion time
+            jl = el.joint_degrees
+            for i_ in range(len(jl)):
+                jl[i_] = tuple(x + 1 + i_ % 2 for x in jl[i_])
     except Exception as ex:
         tr["raised_fwd"] = type(ex).__name__
         return tr
@@ -107,6 +117,8 @@ def run(chk):
     thorough = chk.tier == "thorough"
     req = ["Convert", "Back", "Again"]
     chk.mc("Conversion", "MC_Conversion.cfg", required=req)
+    from .. import crash
+    crash.mc(chk)
     if thorough:
         chk.mc("Conversion", "MC_Conversion_big.cfg", required=req, timeout=7200)
     chk.mc("Conversion", "MC_Conversion_pinned.cfg", expect_violation="C04_Nodes")
@@ -138,6 +150,7 @@ def run(chk):
             continue   # C01/C02's business
         cases.append({"kind": "generator:" + cname, "jds": jds,
                       "rows": [[e[0], e[1], t, m] for e, t, m in zip(rec["edge"], rec["top"], rec["mid"])]})
+    cases += [dict(c, pre_abort=rng.random()) for c in cases[1::4]] + [dict(c, reuse_jds_list=True) for c in cases[2::4]]
     traces = [execute(c) for c in cases]
     chk.add_sample(traces[len(traces) // 2])
     chk.add_sample({k: (v if k != "rows" else v[:5]) for k, v in traces[-1]["case"].items()})
